@@ -245,3 +245,8 @@ SUBS = [Sub("loads", check, strategy=case, quick=2400, thorough=40000),
         Sub("sequences", check_seq, strategy=seq_case, quick=600, thorough=8000),
         Sub("large", check_large, enumerate=large_cases)]
 KNOWN = {}
+
+# the method interface reaches the same functions (shared exhaustive sub-check, see pv/fluent.py)
+from pv import fluent  # noqa: E402
+SUBS.append(fluent.sub(ID))
+RULE += fluent.RULE
